@@ -225,11 +225,235 @@ let dp (lines : string list) =
           | t -> failwith ("dp: bad line: " ^ l))) in
   go lines
 
+(* ---------------------------------------------------------------- text layer (C09 C10 C11) *)
+let rec next_pexpr c : pexpr =
+  match next c with
+  | "E" -> let col = next_str c in let v = next_str c in let ph = next_int c in PEq (col, v, n_of_int ph)
+  | "N" -> PNot (next_pexpr c)
+  | "A" -> let k = next_int c in PAnd (List.init k (fun _ -> next_pexpr c))
+  | "O" -> let k = next_int c in POr (List.init k (fun _ -> next_pexpr c))
+  | t -> failwith ("bad tree token " ^ t)
+
+let rec pr_pexpr (e : pexpr) =
+  match e with
+  | PEq (col, v, ph) -> pr "E"; pr_str col; pr_str v; pr " %d" (int_of_n ph)
+  | PNot e' -> pr "N "; pr_pexpr e'
+  | PAnd es -> pr "A %d" (List.length es); List.iter (fun x -> pr " "; pr_pexpr x) es
+  | POr es -> pr "O %d" (List.length es); List.iter (fun x -> pr " "; pr_pexpr x) es
+
+let pr_pquery (q : pquery) =
+  pr_pexpr q.pq_expr;
+  pr " GB %d" (List.length q.pq_group_by);
+  List.iter pr_str q.pq_group_by
+
+let next_pquery c : pquery =
+  let e = next_pexpr c in
+  if next c <> "GB" then failwith "expected GB";
+  let m = next_int c in
+  let gb = List.init m (fun _ -> next_str c) in
+  { pq_expr = e; pq_group_by = gb }
+
+let pr_parse tag id (r : pquery outcome) =
+  pr "%s %s " tag id;
+  (match r with
+   | Ok q -> pr "ACCEPT "; pr_pquery q
+   | Err -> pr "REJECT" | Panic -> pr "PANIC" | Hang -> pr "HANG");
+  pr "\n"
+
+let pr_text tag id (s : n list) = pr "%s %s TEXT" tag id; pr_str s; pr "\n"
+
+let parse (lines : string list) =
+  List.iter (fun l ->
+    let c = { toks = tokens l } in
+    match c.toks with
+    | [] -> ()
+    | _ ->
+      (match next c with
+       | "P" -> let id = next c in let s = next_str c in pr_parse "P" id (parse_query s)
+       | "F" ->
+         let id = next c in let q = next_pquery c in
+         let t1 = format_query q in
+         pr_text "F" id t1;
+         let r1 = parse_query t1 in
+         pr_parse "F1" id r1;
+         (match r1 with
+          | Ok q1 ->
+            let t2 = format_query q1 in
+            pr_text "F2" id t2;
+            (match parse_query t2 with
+             | Ok q2 -> pr_text "F3" id (format_query q2)
+             | Err -> pr "F3 %s REJECT\n" id | Panic -> pr "F3 %s PANIC\n" id | Hang -> pr "F3 %s HANG\n" id)
+          | _ -> ());
+         (* well-formedness and normal forms, for the evidence / oracle *)
+         pr "FW %s %s\n" id (if wf_query q then "WF" else "NOTWF");
+         (match r1 with
+          | Ok q1 -> pr "FN %s %s\n" id (if norm q1.pq_expr = norm q.pq_expr && q1.pq_group_by = q.pq_group_by then "NORM-EQUAL" else "NORM-DIFF")
+          | _ -> ())
+       | "B" ->
+         let id = next c in let q = next_pquery c in
+         let n = next_int c in
+         let vals = List.init n (fun _ -> next_str c) in
+         (* ReplacePlaceholders itself: in-range placeholders replaced, others left in place *)
+         pr "B %s OK SAME " id; pr_pquery { pq_expr = subst vals q.pq_expr; pq_group_by = q.pq_group_by }; pr "\n";
+         pr "BM %s %d\n" id (int_of_n (max_ph q.pq_expr))
+       | t -> failwith ("parse: bad line " ^ l))) lines
+
+(* ---------------------------------------------------------------- database/sql driver (C11 C12) *)
+let bytes_of_string (s : string) : n list = List.init (String.length s) (fun i -> n_of_int (Char.code s.[i]))
+
+let pr_rowset tag id (r : rowset outcome) =
+  pr "%s %s " tag id;
+  (match r with
+   | Ok rs ->
+     pr "ROWS %d" (List.length rs.rs_cols);
+     List.iter pr_str rs.rs_cols;
+     pr " TYPES";
+     List.iter (fun t -> match t with TText -> pr " TEXT:string" | TBigint -> pr " BIGINT:int64") rs.rs_types;
+     pr " N %d" (List.length rs.rs_rows);
+     List.iter (fun row -> pr " |"; List.iter (fun c -> match c with
+       | CText s -> pr " T"; pr_str s
+       | CInt i -> pr " I %d" (int_of_n i)) row) rs.rs_rows
+   | Err -> pr "ERR" | Panic -> pr "PANIC" | Hang -> pr "HANG");
+  pr "\n"
+
+let opts_info (opts : string) : bool * bool =
+  (* (preload, options valid) *)
+  if opts = "-" then (false, true) else begin
+    let kv = List.map (fun p -> match String.index_opt p '=' with
+      | Some i -> (String.sub p 0 i, String.sub p (i + 1) (String.length p - i - 1))
+      | None -> (p, "")) (String.split_on_char '&' opts) in
+    let get k = try Some (List.assoc k kv) with Not_found -> None in
+    let preload = (get "preload" = Some "true") in
+    let valid = (match get "lrucache" with
+      | Some "true" -> (match get "lrucachesize" with
+          | Some v -> v <> "" && String.length v <= 19 && String.for_all (fun ch -> ch >= '0' && ch <= '9') v
+          | None -> false)
+      | _ -> true) in
+    (preload, valid)
+  end
+
+let sql (lines : string list) =
+  let datasets : (string, (n list * n list) list list) Hashtbl.t = Hashtbl.create 16 in
+  let broken : (string, unit) Hashtbl.t = Hashtbl.create 4 in
+  let dbs : (string, (string * bool * bool)) Hashtbl.t = Hashtbl.create 16 in
+  let index_of ds pre : index outcome =
+    if Hashtbl.mem broken ds then Err else
+    match m_build_store WMem (Hashtbl.find datasets ds) with
+    | Ok s -> m_open_index pre s | Err -> Err | Panic -> Panic | Hang -> Hang in
+  let rec go = function
+    | [] -> ()
+    | l :: rest ->
+      let c = { toks = tokens l } in
+      (match c.toks with
+       | [] -> go rest
+       | _ ->
+         (match next c with
+          | "DATASET" ->
+            let id = next c in let nrows = next_int c in
+            let rec take k acc ls = if k = 0 then (List.rev acc, ls) else
+                match ls with
+                | [] -> failwith "dataset truncated"
+                | rl :: ls' ->
+                  let rc = { toks = tokens rl } in
+                  if next rc <> "R" then failwith "expected R";
+                  let k' = next_int rc in
+                  let row = List.init k' (fun _ -> let a = next_str rc in let b = next_str rc in (a, b)) in
+                  take (k - 1) (row :: acc) ls' in
+            let (rows, rest') = take nrows [] rest in
+            Hashtbl.replace datasets id rows; go rest'
+          | "MISSINGFILE" | "GARBAGEFILE" -> Hashtbl.replace broken (next c) (); go rest
+          | "SQLOPEN" ->
+            let h = next c in let ds = next c in let opts = next c in
+            let (pre, valid) = opts_info opts in
+            Hashtbl.replace dbs h (ds, pre, valid);
+            pr "SQLOPEN %s OK\n" h; go rest
+          | "SQLQ" ->
+            let id = next c in let h = next c in let mode = next c in
+            let text = next_str c in
+            let k = next_int c in
+            let rec take k acc ls = if k = 0 then (List.rev acc, ls) else
+                match ls with
+                | [] -> failwith "args truncated"
+                | al :: ls' ->
+                  let ac = { toks = tokens al } in
+                  if next ac <> "ARGS" then failwith "expected ARGS";
+                  let n = next_int ac in
+                  let args = List.init n (fun _ -> match next ac with
+                    | "S" -> next_str ac
+                    | "I" -> bytes_of_string (string_of_int (next_int ac))
+                    | _ -> failwith "bad arg") in
+                  take (k - 1) (args :: acc) ls' in
+            let (argsets, rest') = take k [] rest in
+            (match Hashtbl.find_opt dbs h with
+             | None -> List.iteri (fun j _ -> pr "SQL %s.%d NODB\n" id j) argsets
+             | Some (ds, pre, valid) ->
+               List.iteri (fun j args ->
+                 let r = if not valid then Err else
+                   (match index_of ds pre with
+                    | Ok ix -> if mode = "prepared" then m_prepared_query ix text args else m_sql_query ix text args
+                    | Err -> Err | Panic -> Panic | Hang -> Hang) in
+                 pr_rowset "SQL" (Printf.sprintf "%s.%d" id j) r) argsets);
+            go rest'
+          | "SQLCLOSE" -> let h = next c in Hashtbl.remove dbs h; pr "SQLCLOSE %s OK\n" h; go rest
+          | "SQLPROBE" -> let id = next c in pr "SQLPROBE %s RELEASED\n" id; go rest
+          | "SQLCONC" | "DOPEN" | "DQUERY" | "DCLOSE" -> go rest
+          | t -> failwith ("sql: bad line: " ^ l))) in
+  go lines
+
+(* ---------------------------------------------------------------- driver connection cache (C17) *)
+let drv (lines : string list) =
+  let files : (string, int) Hashtbl.t = Hashtbl.create 8 in
+  let optsn : (string, int) Hashtbl.t = Hashtbl.create 8 in
+  let handles : (string, int) Hashtbl.t = Hashtbl.create 8 in
+  let invalid : (int, unit) Hashtbl.t = Hashtbl.create 8 in
+  let num tbl k = match Hashtbl.find_opt tbl k with Some i -> i | None -> let i = Hashtbl.length tbl + 1 in Hashtbl.replace tbl k i; i in
+  let ops = ref [] and labels = ref [] in
+  List.iter (fun l ->
+    let c = { toks = tokens l } in
+    match c.toks with
+    | [] -> ()
+    | _ ->
+      (match next c with
+       | "MISSINGFILE" | "GARBAGEFILE" -> Hashtbl.replace invalid (num files (next c)) ()
+       | "DOPEN" ->
+         let h = next c in let f = next c in let o = next c in
+         (* the driver's key: canonical option string; an invalid cache size is an open error *)
+         let (pre, valid) = opts_info o in
+         let contains (hay : string) (needle : string) =
+           let n = String.length needle and m = String.length hay in
+           let rec at i = i + n <= m && (String.sub hay i n = needle || at (i + 1)) in at 0 in
+         let lru = contains o "lrucache=true" in
+         let canon = (if pre then "p" else "") ^ (if lru then "l" ^ o else "") in
+         let fi = num files f in
+         let fi' = if valid then fi else (let bad = 1000 + fi in Hashtbl.replace invalid bad (); bad) in
+         ops := DOpen (n_of_int (num handles h), { k_file = n_of_int fi'; k_opts = n_of_int (num optsn canon) }) :: !ops;
+         labels := ("D " ^ h) :: !labels
+       | "DQUERY" ->
+         let id = next c in let h = next c in
+         ops := DQuery (n_of_int (num handles h)) :: !ops; labels := ("D " ^ id) :: !labels
+       | "DCLOSE" ->
+         let h = next c in
+         ops := DClose (n_of_int (num handles h)) :: !ops; labels := ("D " ^ h ^ ".close") :: !labels
+       | _ -> ())) lines;
+  let ops = List.rev !ops and labels = List.rev !labels in
+  let valid f = not (Hashtbl.mem invalid (int_of_n f)) in
+  let wf = wf_ops valid [] [] ops in
+  pr "WF %s\n" (if wf then "true" else "false");
+  let (_, rs) = m_d_run valid d_init ops in
+  List.iter2 (fun lab r ->
+    pr "%s %s\n" lab (match r with
+      | ROpened -> "OPENED" | ROpenErr -> "OPENERR"
+      | RRows f -> (let name = Hashtbl.fold (fun k v acc -> if v = int_of_n f then k else acc) files "?" in "ROWSOF " ^ name)
+      | RClosed -> "CLOSED" | RPanic -> "PANIC" | RHang -> "HANG" | RMisuse -> "MISUSE")) labels rs
+
 let () =
   let prop = Sys.argv.(1) and path = Sys.argv.(2) in
   let lines = read_lines path in
   (match prop with
    | "c07" -> c07 lines
    | "dp" -> dp lines
+   | "parse" -> parse lines
+   | "sql" -> sql lines
+   | "drv" -> drv lines
    | _ -> failwith ("unknown property " ^ prop));
   print_string (Buffer.contents out)
